@@ -159,7 +159,7 @@ CHECKS['C20'] = dict(
     stop_after_violations=60,
     max_reported=40,
     shrink_keys=['ops', 'faults', 'pool'],
-    expected_probes=['bitflip', 'byte', 'trunc', 'zero_sector', 'dup_sector', 'splice', 'field', 'numeral',
+    expected_probes=['bitflip', 'byte', 'trunc', 'zero_sector', 'dup_sector', 'splice', 'field', 'numeral', 'backref', 'retype', 'soup',
                      'damaged_dump_loaded', 'damaged_dump_rejected', 'allocation_over_budget_refused'],
     rule=('one run = an expression pool of 2-12 DAG nodes over every serialisable class, dumped through the archive '
           'templates with the write (= field) boundaries recorded and address keys normalised, then 3-33 loads of a '
